@@ -60,14 +60,34 @@ META = {
         "reproduced by the model and replayed on the real code: diff_cmp is not a weak order (the displayed order "
         "then depends on TimSort's schedule) [C03X_diff_cmp_not_weak_order]; a childless new/removed %multiline "
         "row is invisible, an emptied body is UNCHANGED, a reordered body shows the whole block "
-        "[C03X_multiline_losses]. NOT PROVED (statements kept as Definitions): the per-level characterisation of "
-        "%multiline groups for the model [C03X_multiline_level_statement; evaluated on every real output], the "
-        "projection theorem for sides with %rewrite rows [C03X_projections_rewrite_statement]. CORRESPONDENCE for "
+        "[C03X_multiline_losses]. PROVED for all inputs in the deepening round: (%multiline) on xdom a row of a "
+        "%multiline rule is shown iff its bodies differ as ordered trees (absent = empty), exactly once, with an exact "
+        "op and the whole body of the side it is read from, and no entry of the other three groups is such a row -- at "
+        "the top level [C03X_multiline_level = the former C03X_multiline_level_statement], below any entry "
+        "[C03X_multiline_level_any_depth] and at EVERY depth of the diff, through removed subtrees, rewrite_diff's "
+        "AFFECTED->MOVED pass and mark_unchanged [C03X_multiline_every_depth, C03X_multiline_removed_subtree]; "
+        "(%rewrite) the reconstruction law for EVERY rulebook: the projection of the diff plus, per level, the %rewrite "
+        "rows of the other configuration that the diff does not mention gives old|R resp. new|R as unordered trees "
+        "[C03X_projections_rewrite = the former C03X_projections_rewrite_statement; it follows from `lossless` alone, "
+        "C03X_recon_of_lossless, hence holds of every real output P_C03 accepts; on xdom for the normalised pair, "
+        "C03X_projections_rewrite_modulo_case; it is the plain projection without %rewrite rows, "
+        "C03X_recon_is_projection_without_rewrite]; (modulo case, about the ORIGINAL pair) what the diff determines of "
+        "each side is a re-spelling of it: same rows, order and nesting, only rows governed by an %ignore_case rule "
+        "possibly lower-cased, multiline bodies verbatim [C03X_lossless_original_modulo_case]; a re-spelling equals "
+        "the original up to the case of rows and is the original without %ignore_case rows [C03X_only_spelling_lost]; "
+        "(resort_diff, no order hypothesis) diff_cmp is sign-antisymmetric [C03X_diff_cmp_antisymmetric], so no entry "
+        "of the output is immediately followed by a strictly smaller one, at every depth "
+        "[C03X_resort_no_adjacent_descent]; the strong form needs transitivity on the level only "
+        "[C03X_resort_sorted_stable_transitive] and that cannot be dropped: a level whose output is not strongly "
+        "sorted although a strongly sorted arrangement exists and is returned for another input order "
+        "[C03X_resort_transitivity_needed]. CORRESPONDENCE for "
         "the extension: a separate stream of rulebooks with %ignore_case (parameter and inline (?i)) and %multiline "
         "rules (respellings, collisions, bodies edited / reordered / emptied) against the real make_diff on xdom, "
         "P_C03X on the real outputs; exceptions of the real make_diff outside xdom are classified by Coq predicates "
-        "(four known classes, known/C03.json); resort_diff's real output against the stable sort by the modelled "
-        "diff_cmp wherever that is a weak order, per-level permutation always."),
+        "(four known classes, known/C03.json); the multiline law is evaluated at every depth of the real outputs "
+        "(ml_ok); resort_diff's real output against the stable sort by the modelled diff_cmp wherever that is a weak "
+        "order, per-level permutation always, and no adjacent descent at any depth wherever the first two words of "
+        "the rows are modelled (adj_all)."),
     "technique": "Coq induction over annotated config trees, diffs and signed-line listings; vm_compute differential "
                  "check on real make_diff / formatter.diff / gen_pre_as_diff outputs",
     "note": "The theorems are about the Gallina model; the tie to the code is differential testing. Not modelled: "
@@ -75,10 +95,12 @@ META = {
             "gen_pre_as_diff, %ignore_case / %multiline outside xdom (the real make_diff raises or drops rows there: "
             "known findings), resort_diff where diff_cmp is not a weak order (only the per-level permutation is "
             "claimed) and words int()/ip_interface() accept beyond sign+digits+underscores and dotted IPv4[/len]. "
-            "%multiline: the model is compared with the code and its per-level law is evaluated on real outputs, but "
-            "the at-every-depth losslessness theorem covers trees without %multiline rows only. With %rewrite rows "
-            "on a side the projection of that side is characterised by C03_lossless (what may be omitted), not by "
-            "C03_projections.",
+            "%multiline: the model is compared with the code; the law of multiline blocks is proved at every depth, "
+            "but the `lossless` / order / MOVED theorems themselves cover trees without %multiline rows only (the body "
+            "of a multiline entry is not a compared level). With %rewrite rows the reconstruction needs the other "
+            "configuration (C03X_projections_rewrite); C03_projections is its special case. The model of resort_diff "
+            "is the linear stable insertion sort: where diff_cmp is not transitive CPython's binary insertion may give "
+            "another order (both have no adjacent descent; only that and the per-level permutation are claimed there).",
 }
 
 AO = "(annot_f pm (pc_rules c) (pc_old c))"
@@ -573,7 +595,7 @@ def pipeline_stage(ctx, n: int):
 
 # ------------------------------------------------------------------ C03X: %ignore_case and %multiline
 
-X_IMPORTS = IMPORTS + "\nFrom Annet Require Import Model.DiffX Spec.P_C03X."
+X_IMPORTS = IMPORTS + "\nFrom Annet Require Import Model.DiffX Spec.P_C03X Spec.P_C03ML."
 X_TY = "(pcase * list (string * (bool * bool)))%type"
 _XAO = "(annot_f pm (pc_rules (fst c)) (pc_old (fst c)))"
 _XAN = "(annot_f pm (pc_rules (fst c)) (pc_new (fst c)))"
@@ -583,6 +605,9 @@ X_PREDS = {
     "agree": f"fun c => negb (xdom {_XFL} {_XAO} {_XAN}) || diff_eqb (make_diffXM {_XFL} pm (pc_rules (fst c)) "
              f"(pc_old (fst c)) (pc_new (fst c))) (pc_diff_full (fst c))",
     "holds": f"fun c => P_C03X {_XFL} pm (pc_rules (fst c), pc_old (fst c), pc_new (fst c)) (pc_diff_full (fst c))",
+    # the multiline law at EVERY depth of the real output (proved of the model: C03X_multiline_every_depth)
+    "holds_deep": f"fun c => negb (xdom {_XFL} {_XAO} {_XAN}) || ml_ok {_XFL} (normO {_XFL} {_XAO} {_XAN}) "
+                  f"(normN {_XFL} {_XAO} {_XAN}) (pc_diff_full (fst c))",
     # conservativity on real outputs: without flags the extended model is the old one
     "same_as_base": f"fun c => negb (is_nil (snd c)) || diff_eqb (make_diffXM {_XFL} pm (pc_rules (fst c)) (pc_old (fst c)) "
                     f"(pc_new (fst c))) (p_make_diff (pc_rules (fst c)) (pc_old (fst c)) (pc_new (fst c)))",
@@ -769,6 +794,13 @@ def x_stage(ctx, n: int):
                  "(lower-cased) configurations, or a multiline block is not shown whole / shown although unchanged",
             replay=dict(rep(i), clause="P_C03X")))
     if not res["holds"]:
+        for i in sorted(res["holds_deep"], key=lambda i: case_size(cases[i]))[:1]:
+            ctx.add_violation(core.Violation(
+                signature="C03/x/multiline-law-below-top-level",
+                what="below the top level of the real diff a row of a %multiline rule is not shown exactly once with "
+                     "its whole body when its bodies differ, or is shown although they are equal (Spec/P_C03ML.v ml_ok)",
+                replay=dict(rep(i), clause="ml_ok")))
+    if not res["holds"] and not res["holds_deep"]:
         for k in ("agree", "same_as_base"):
             for i in sorted(res[k], key=lambda i: case_size(cases[i]))[:1]:
                 ctx.add_violation(core.Violation(
@@ -871,12 +903,15 @@ def _lowered(c, o) -> bool:
 
 # ------------------------------------------------------------------ resort_diff's order
 
-SORT_IMPORTS = ("From Annet Require Import Base.Str Base.Tree Model.Rulebook Model.Diff Model.Order Model.DiffSort.")
+SORT_IMPORTS = ("From Annet Require Import Base.Str Base.Tree Model.Rulebook Model.Diff Model.Order Model.DiffSort Spec.P_C03Sort.")
 SORT_TY = "(list dnode * list dnode)%type"
 SORT_PREDS = {
     "guard": "fun c => forallb sort_modelled_n (fst c) && wo_all (fst c)",
     "agree": "fun c => negb (forallb sort_modelled_n (fst c) && wo_all (fst c)) || diff_eqb (resort (fst c)) (snd c)",
     "holds": "fun c => lvlperm (fst c) (snd c) && (negb (forallb sort_modelled_n (fst c) && wo_all (fst c)) || sorted_all (snd c))",
+    # with NO order hypothesis: no entry is immediately followed by a strictly smaller one, at every depth
+    # (C03X_resort_no_adjacent_descent for the model; any insertion by an antisymmetric comparison has it)
+    "adjacent": "fun c => negb (forallb sort_modelled_n (fst c)) || adj_all (snd c)",
 }
 SW0 = ["peer", "rule", "a", "10", "2", "10.0.0.1", "10.0.0.2/24", "maximum"]
 SW1 = ["1", "2", "10", "x", "y", "10.0.0.1", "10.0.0.9", "1_0", "+3", "-4", "10.0.0.0/8", ""]
@@ -910,6 +945,11 @@ def sort_stage(ctx, n: int):
             signature="C03/x/resort-not-a-sorted-permutation",
             what="resort_diff's output is not a per-level permutation of its input, or not sorted by diff_cmp on a level "
                  "where diff_cmp is a weak order",
+            replay={"case": {"vendor": "huawei", "indent": "  ", "diff": ds[i], "want_resorted": True}, "impl": outs[i]}))
+    for i in ([] if res["holds"] else res["adjacent"][:1]):
+        ctx.add_violation(core.Violation(
+            signature="C03/x/resort-adjacent-descent",
+            what="resort_diff's output has an entry immediately followed by one that diff_cmp puts strictly before it",
             replay={"case": {"vendor": "huawei", "indent": "  ", "diff": ds[i], "want_resorted": True}, "impl": outs[i]}))
     if not res["holds"]:
         for i in res["agree"][:1]:
@@ -953,7 +993,16 @@ def replay(ctx, doc):
     if not case:
         print("replay: no concrete input stored (%s)" % doc.get("signature"))
         return 1
-    if "diff" in case and "indent" in case:          # textual views
+    if case.get("want_resorted"):                    # resort_diff's order
+        o = core.run_impl("c03_runner.py", [case])[0]
+        if "resorted" not in o:
+            print("replay: the implementation raised:", json.dumps(o)[-300:])
+            return 1
+        res = core.run_case_files(ctx.prop, SORT_TY, SORT_IMPORTS,
+                                  {"holds_" + k: v for k, v in SORT_PREDS.items() if k in ("holds", "adjacent")} |
+                                  {"agree": SORT_PREDS["agree"]},
+                                  [cpair(P.coq_diff(case["diff"]), P.coq_diff(o["resorted"]))], tag="replay")
+    elif "diff" in case and "indent" in case:        # textual views
         o = core.run_impl("c03_runner.py", [{k: case[k] for k in ("vendor", "indent", "diff")}])[0]
         res = core.run_case_files(ctx.prop, "tcase", TEXT_IMPORTS, TEXT_PREDS, _text_terms([case], [o]),
                                   tag="replay", extra_defs=TEXT_DEFS)
@@ -967,9 +1016,13 @@ def replay(ctx, doc):
         if "fatal" in o or "diff_full_err" in o:
             print("replay: the implementation raised:", str(o.get("fatal") or o.get("diff_full_err"))[-300:])
             return 1
-        preds = {f"holds_{k}": v for k, v in HOLDS.items()}
-        preds.update(AGREE2)
-        res = core.run_case_files(ctx.prop, "pcase", IMPORTS, preds, [slim_pcase(c, o)], tag="replay")
+        if r.get("stream") == "x":                   # %ignore_case / %multiline: the extended predicates
+            preds = {"holds_P_C03X": X_PREDS["holds"], "holds_ml_ok": X_PREDS["holds_deep"], "agree": X_PREDS["agree"]}
+            res = core.run_case_files(ctx.prop, X_TY, X_IMPORTS, preds, [_x_term(c, o)], tag="replay")
+        else:
+            preds = {f"holds_{k}": v for k, v in HOLDS.items()}
+            preds.update(AGREE2)
+            res = core.run_case_files(ctx.prop, "pcase", IMPORTS, preds, [slim_pcase(c, o)], tag="replay")
     bad = sorted(k for k, v in res.items() if v)
     print("replay %s: implementation output %s" % (doc.get("signature"), json.dumps(o)[:600]))
     print("replay: false on the current implementation:", ", ".join(bad) if bad else "nothing (all clauses hold, model agrees)")
